@@ -30,12 +30,6 @@ def pNamed : List String → Option Named
     pure { id := i, name := n, type := t, created := c }
   | _ => none
 
-/-- one reference: `r` followed by the `;`-separated units of its dimensions -/
-def pRef (tok : String) : Option (List String) :=
-  match tok.toList with
-  | 'r' :: rest => if rest.isEmpty then some [] else ((String.ofList rest).splitOn ";").mapM parseStr
-  | _ => none
-
 structure PState where
   desc : FileDesc Float := { blocks := [], sections := [] }
   lastTagMulti : Bool := false
@@ -55,30 +49,34 @@ def addFeature (st : PState) (f : FeatureDesc) : PState :=
   { st with desc := { st.desc with blocks := modifyLast st.desc.blocks fun b =>
       if st.lastTagMulti then { b with mtags := upd b.mtags } else { b with tags := upd b.tags } } }
 
-def pTag (multi : Bool) (rest : List String) : Option TagDesc :=
+/-- `refs` are the ids of the referenced arrays; their dimension units are derived by the model (`resolveRefs`) from the
+    arrays of the block described so far (arrays precede tags in the description) -/
+def pTag (st : PState) (multi : Bool) (rest : List String) : Option TagDesc :=
   match rest with
   | [id, name, type, created, pos, units, refs] => do
     let ent ← pNamed [id, name, type, created]
     let p ← gotOf pBool pos
     let us ← parseListOf parseStr units
-    let rs ← gotOf (parseListOf pRef) refs
+    let ids ← gotOf (parseListOf parseStr) refs
+    let arrays := match st.desc.blocks.getLast? with | some b => b.arrays | none => []
+    let rs : Got (List (List String)) := match ids with | .threw => .threw | .val l => .val (resolveRefs arrays l)
     pure { ent := ent, isMulti := multi, posSet := p, units := us, refs := rs, features := [] }
   | _ => none
 
 def pDim (rest : List String) : Option (DimDesc Float) :=
   match rest with
-  | ["R", idx, du, ticks, unit] => do
-    let i ← parseNat idx; let u ← parseStr du; let t ← parseListOf parseF64 ticks; let un ← gotOf pOptStr unit
-    pure { index := i, kind := .range t un, dunit := u }
-  | ["S", idx, du, si, off, unit] => do
-    let i ← parseNat idx; let u ← parseStr du; let s ← gotOf parseF64 si; let o ← gotOf pBool off; let un ← gotOf pOptStr unit
-    pure { index := i, kind := .sampled s o un, dunit := u }
-  | ["T", idx, du, n] => do
-    let i ← parseNat idx; let u ← parseStr du; let k ← parseNat n
-    pure { index := i, kind := .set k, dunit := u }
-  | ["F", idx, du, n] => do
-    let i ← parseNat idx; let u ← parseStr du; let k ← parseNat n
-    pure { index := i, kind := .frame k, dunit := u }
+  | ["R", idx, ticks, unit] => do
+    let i ← parseNat idx; let t ← parseListOf parseF64 ticks; let un ← gotOf pOptStr unit
+    pure { index := i, kind := .range t un }
+  | ["S", idx, si, off, unit] => do
+    let i ← parseNat idx; let s ← gotOf parseF64 si; let o ← gotOf pBool off; let un ← gotOf pOptStr unit
+    pure { index := i, kind := .sampled s o un }
+  | ["T", idx, n] => do
+    let i ← parseNat idx; let k ← parseNat n
+    pure { index := i, kind := .set k }
+  | ["F", idx, n, cu] => do
+    let i ← parseNat idx; let k ← parseNat n; let u ← pOptStr cu
+    pure { index := i, kind := .frame k u }
   | _ => none
 
 /-- one record; `none` = a getter the model takes as a plain value threw (or the record is malformed) -/
@@ -96,8 +94,8 @@ def pRec (st : PState) (r : List String) : Option PState :=
     let u ← gotOf pOptStr unit; let p ← gotOf parseNat poly; let o ← gotOf pBool origin
     pure (addArray st { ent := ent, dtypeSet := d, dimCount := c, shape := sh, dims := [], unit := u, polyN := p, originSet := o })
   | "X" :: rest => do let d ← pDim rest; pure (addDim st d)
-  | "M" :: rest => do let t ← pTag true rest; pure (addTag st t)
-  | "T" :: rest => do let t ← pTag false rest; pure (addTag st t)
+  | "M" :: rest => do let t ← pTag st true rest; pure (addTag st t)
+  | "T" :: rest => do let t ← pTag st false rest; pure (addTag st t)
   | ["R", id, created, data, lt] => do
     let i ← parseStr id; let c ← gotOf parseInt created; let d ← gotOf pBool data; let l ← gotOf parseInt lt
     pure (addFeature st { id := i, created := c, dataSet := d, linkType := l })
